@@ -35,6 +35,7 @@ type Prog struct {
 	gconst    map[*ssa.Global]bool
 	recTemplates map[string]*recTemplate
 	mu        sync.Mutex
+	derefDefs map[string]string // deref_<T> declarations + defining axioms
 	nonlinearDef map[string]bool
 	sites        map[string][]interiorSite
 	structTypes  map[string]types.Type // named struct types of the repository
@@ -96,6 +97,17 @@ func loadProg(repoDir string) (*Prog, error) {
 							P.addFunc(k, f)
 						}
 					}
+				}
+			}
+		}
+	}
+	// dependency audit: functions of the page-buffer dependency can be put under contract too
+	// (key "dep/filebuffer:<name>"); calls into the dependency from /repo keep using the assumed contracts
+	for _, sp := range prog.AllPackages() {
+		if sp.Pkg.Path() == "github.com/hnakamur/filebuffer" {
+			for _, m := range sp.Members {
+				if f, isF := m.(*ssa.Function); isF {
+					P.funcs["dep/filebuffer:"+funcName(f)] = f
 				}
 			}
 		}
